@@ -20,7 +20,9 @@ LEVEL_TEXT = ("Level 'other': the Coq theorems are true by construction of the m
               "under a subset that has no cross-batch operation (fail closed), and (ii) the relational check on the real code: "
               "every step of every sample of a batched run equals the run of that sample alone in an identically parameterised "
               "batch-1 copy (8 neurons with adaptation frozen, 4 synapses incl. delayed reads, 4 connections with/without "
-              "delays, Serial/Biclique/RecurrentSerial, 9 trainers with batch_reduction=sum: batched parts == sum of per-sample parts).")
+              "delays, Serial/Biclique/RecurrentSerial, 9 trainers with batch_reduction=sum: batched parts == sum of per-sample parts; "
+              "the same components with the batch size reached through the batchsz setters after warm-up at other sizes; "
+              "14 trainer configurations with sum and all hyperparameters given as per-cell overrides, several cells per trainer).")
 LEVEL_NOTE = ("Not a proof about the code. Trusted: the comparison harness (tools/impl/c11_impl.py), float64, tolerance 1e-9 "
               "relative for continuous values (vectorised vs scalar libm paths), spikes compared exactly. Adaptation updates "
               "(documented batch reduction) are frozen with adapt=False.")
@@ -106,10 +108,102 @@ def gen_cases(rng, n):
     return cases
 
 
+TRAINERS2 = ["STDP", "STDP-nearest", "STDP-antihebbian", "TripletSTDP", "MSTDP", "STDP-ltp", "MSTDPET", "KernelSTDP",
+             "STDP-ltd", "KernelSTDP-mixed", "DelayAdjustedSTDP", "DelayAdjustedSTDPD", "DelayAdjustedMSTDP",
+             "DelayAdjustedMSTDPD"]
+
+
+def resize_spec(rng, B):
+    """batch sizes the batched object goes through (constructor first, then ``batchsz`` setter) before it is set to B
+    with the setter: enlarge (mostly from the default 1), shrink, and two-step paths; ``warm`` steps are run at each"""
+    paths = [[1], [1], [1], [B + 1], [B + 2], [1, B + 1], [B + 2, 1], [B, 1]]
+    if B > 2:
+        paths += [[B - 1], [2]]
+    return {"path": rng.choice(paths), "warm": rng.randint(2, 5), "clear_first": rng.random() < 0.5}
+
+
+def gen_cases2(rng, n):
+    """second stream: (a) components whose batch size is reached through the ``batchsz`` setters after warm-up steps
+    at other batch sizes, compared with fresh batch-1 copies; (b) trainers whose sum reduction / hyperparameters are
+    given as per-cell register_cell overrides (trainer-level defaults differ) and trainers driving several cells"""
+    cases = []
+    for i in range(n):
+        kind = ["neuron", "synapse", "connection", "layer", "trainer"][i % 5]
+        j = i // 5
+        B = rng.choice([2, 3, 3, 4])
+        dt = rng.choice(DTS)
+        seed = rng.randrange(1 << 30)
+        if kind == "neuron":
+            kw = {"refrac_t": rng.choice([0.0, dt, 2 * dt, 2.5 * dt])}
+            cases.append({"kind": kind, "spec": {"cls": NEURONS[j % len(NEURONS)], "shape": rng.choice([[3], [2, 2]]),
+                                                 "dt": dt, "kw": kw},
+                          "B": B, "T": rng.randint(12, 30), "seed": seed, "scale": rng.choice([20.0, 60.0, 120.0]),
+                          "resize": resize_spec(rng, B)})
+        elif kind == "synapse":
+            kw = {"delay": rng.choice([0, 1, 3]) * dt}
+            if rng.random() < 0.5:
+                kw["interp_tol"] = 0.0
+            cases.append({"kind": kind, "spec": {"cls": SYNAPSES[j % len(SYNAPSES)], "shape": rng.choice([[3], [2, 2]]),
+                                                 "dt": dt, "kw": kw},
+                          "B": B, "T": rng.randint(8, 16), "seed": seed, "ongrid": rng.random() < 0.5,
+                          "resize": resize_spec(rng, B)})
+        elif kind == "connection":
+            cls = ["Conv2D", "LinearDense", "LinearDirect", "LinearLateral"][j % 4]
+            delay = rng.choice([None, dt, 2 * dt, 3 * dt])
+            if cls == "Conv2D" and (j // 4) % 2 == 0:
+                delay = rng.choice([dt, 2 * dt, 3 * dt])
+            cases.append({"kind": kind, "spec": conn_spec(rng, cls, dt, delay), "B": B, "T": rng.randint(6, 12),
+                          "seed": seed, "ongrid": rng.random() < 0.5, "resize": resize_spec(rng, B)})
+        elif kind == "layer":
+            lk = ["Serial", "Biclique", "RecurrentSerial", "Serial"][j % 4]
+            delay = rng.choice([None, dt, 2 * dt])
+            n1, n2 = rng.choice(NEURONS), rng.choice(NEURONS)
+            if lk == "Serial":
+                ccls = rng.choice(["LinearDense", "Conv2D", "LinearDirect", "LinearLateral"])
+                cs = conn_spec(rng, ccls, dt, delay, [3], [2])
+                if ccls == "Conv2D":
+                    cs.update(height=4, width=4, channels=1, kernel=2, stride=1, padding=0)
+                    ishape = [1, 4, 4]
+                    nshape = [cs["filters"], 3, 3]
+                else:
+                    ishape, nshape = [3], ([2] if ccls == "LinearDense" else [3])
+                spec = {"cls": "Serial", "connection": cs, "neuron": {"cls": n1, "shape": nshape, "dt": dt}}
+            elif lk == "Biclique":
+                ishape = [3]
+                spec = {"cls": "Biclique",
+                        "connections": [["a", conn_spec(rng, "LinearDense", dt, delay, [3], [2])],
+                                        ["b", conn_spec(rng, "LinearDense", dt, None, [3], [2])]],
+                        "neurons": [["x", {"cls": n1, "shape": [2], "dt": dt}], ["y", {"cls": n2, "shape": [2], "dt": dt}]],
+                        "combine": rng.choice(["sum", "mean", "max", "min", "prod"])}
+            else:
+                ishape = [3]
+                spec = {"cls": "RecurrentSerial", "feedfwd": conn_spec(rng, "LinearDense", dt, delay, [3], [2]),
+                        "lateral": conn_spec(rng, "LinearDense", dt, None, [2], [2]),
+                        "feedback": conn_spec(rng, "LinearDense", dt, rng.choice([None, dt]), [2], [2]),
+                        "ff_neuron": {"cls": n1, "shape": [2], "dt": dt}, "fb_neuron": {"cls": n2, "shape": [2], "dt": dt}}
+            cases.append({"kind": kind, "in": ishape, "spec": spec, "B": B, "T": rng.randint(8, 18), "seed": seed,
+                          "resize": resize_spec(rng, B)})
+        else:
+            tr = TRAINERS2[j % len(TRAINERS2)]
+            delayed = tr.startswith("DelayAdjusted")
+            spec = {"cls": "Serial",
+                    "connection": dict(conn_spec(rng, "LinearDense", dt, 3 * dt if delayed else rng.choice([None, 2 * dt]),
+                                                 [3], [2]), synapse={"cls": "DeltaCurrent"}),
+                    "neuron": {"cls": "LIF", "shape": [2], "dt": dt, "kw": {"refrac_t": rng.choice([0.0, dt])}}}
+            mode = rng.choice(["cell", "cell", "cell", "mixed"])
+            cells = rng.choice([1, 2, 2, 3]) if mode == "cell" else rng.choice([2, 3])
+            cases.append({"kind": kind, "trainer": tr, "in": [3], "spec": spec, "B": B, "T": rng.randint(8, 16), "seed": seed,
+                          "hp": mode, "cells": cells, "default_reduction": rng.choice(["none", "none", "mean", "amax"]),
+                          "shared": rng.random() < 0.35})
+    return cases
+
+
 def run(ctx):
     rng = random.Random(ctx["seed"])
     n = 200 if ctx["tier"] == "quick" else 2000
-    cases = gen_cases(rng, n)
+    cases = load_corpus() + gen_cases(rng, n)
+    # independent generator: the first stream is exactly what it was before the second one existed
+    cases += gen_cases2(random.Random(ctx["seed"] * 7919 + 11), 160 if ctx["tier"] == "quick" else 1600)
     res = []
     # shard over a few processes
     import concurrent.futures as cf
@@ -126,16 +220,27 @@ def run(ctx):
         if not r["ok"]:
             fails.append({"case": c, "detail": {k2: v for k2, v in r.items() if k2 != "trace"},
                           "signature": {"kind": "batch_interaction", "component": c["kind"]}})
-    dist = Counter(c["kind"] + ":" + (c.get("trainer") or c["spec"]["cls"]) for c in cases)
+    dist = Counter(c["kind"] + ":" + (c.get("trainer") or c["spec"]["cls"]) + ("/resized" if c.get("resize") else "")
+                   + ("/hp=" + c["hp"] if c.get("hp") else "") for c in cases)
     active = sum(1 for r in res if r.get("events", 0) > 0)
     return {
         "evaluations": len(cases),
         "distinct_nontrivial": len({repr(c) for c, r in zip(cases, res) if r.get("events", 0) > 0}),
         "rule": "seeded component/configuration/input-sequence cases (B in 2..4, dt in {1, 0.5, 1.3}, T in 6..40), each comparing every "
-                "step of a batched run with B batch-1 copies; non-trivial = the run produced spikes / non-zero parts",
+                "step of a batched run with B batch-1 copies; second stream: batch size reached through the batchsz setters "
+                "(enlarge/shrink/two-step paths after warm-up steps at the other sizes; neurons, synapses, connections incl. "
+                "delayed Conv2D, layers via their components) vs fresh batch-1 copies from the cleared state, and trainers "
+                "whose sum reduction and hyperparameters are per-cell register_cell overrides (trainer-level defaults differ; "
+                "1-3 cells per trainer object, optionally ONE trainer object for the batched cells and all their copies); "
+                "non-trivial = the run produced spikes / non-zero parts",
         "samples": cases[:2], "component_distribution": dict(dist), "cases_with_activity": active,
         "mismatches": [], "oracle_failures": fails, "traces_validated_against_impl": len(cases) - len(fails),
     }
+
+
+def load_corpus():
+    import glob, json
+    return [json.load(open(p)) for p in sorted(glob.glob(os.path.join(F.VERIF, "corpus", ID, "*.json")))]
 
 
 def replay(case):
